@@ -111,7 +111,7 @@ def failing_decls(log: str) -> list[str]:
 
 
 # the module that carries every obligation of a property (default PestModel.Props.<ID>)
-PROP_MODULE = {"C10": "PestModel.Props.C10Exact", "C06": "PestModel.Props.AllModes", "C07": "PestModel.Props.AllModes",
+PROP_MODULE = {"C10": "PestModel.Props.C10Exact", "C06": "PestModel.Lemmas.OptSoundKeepsAll", "C07": "PestModel.Lemmas.OptSoundKeepsAll",
                "C13": "PestModel.Props.AllModes", "C16": "PestModel.Props.AllModes", "C02": "PestModel.Props.AllModes",
                "C04": "PestModel.Props.AllModes", "C05": "PestModel.Props.AllModes"}
 
